@@ -70,8 +70,8 @@ add("C18", "TestC18", "exploration",
 add("C19", "TestC19", "exploration",
     dict(cases=1200, shards=8), dict(cases=30000, shards=16, timeout_s=3000),
     "cases as C01 with integer (or no) values, weighted towards regular trees that produce short nodes of a targeted table size and towards 257-bit nodes; non-trivial = the trie contains at least one table-compressed short node",
-    "Generated-input search: String() must not panic, must render every node id exactly once, its leaf lines top to bottom must carry the retained values in key order, and a reloaded trie must render identically.",
-    "Trusted: the rendering grammar of openacid/low/tree (#id, =value). Label text is not asserted.", RAPID, "DESIGN.md §4 C19")
+    "Generated-input search: String() must not panic, must render every node id exactly once, its leaf lines top to bottom must carry the retained values in key order, the labels and steps on the path to the j-th leaf must spell the bits of the j-th retained key (documented line format <label>-><id>+<step>*<fanout>=<value>), and a reloaded trie must render identically.",
+    "Trusted: the rendering grammar of openacid/low/tree and the documented line format.", RAPID, "DESIGN.md §4 C19")
 
 add("C04", "TestC04", "exploration",
     dict(cases=12000, shards=8), dict(cases=200000, shards=16, timeout_s=3000, fuzz=dict(target="FuzzC04", seconds=180)),
